@@ -218,15 +218,19 @@ pub fn build(g: &Grammar, thorough: bool) -> Vec<Case10> {
             continue;
         }
         for tk in kinds_of(ns) {
-            for mode in ["used", "unused", "dangling"] {
+            for mode in ["used", "unused", "dangling", "used-by-removable"] {
+                // "used-by-removable": the only user is itself a helper that nothing keeps alive, so both have to go in one run
+                if mode == "used-by-removable" && !matches!(referrer.tag.as_str(), "COMPU_METHOD" | "UNIT" | "GROUP" | "FUNCTION" | "COMPU_TAB" | "COMPU_VTAB" | "COMPU_VTAB_RANGE" | "RECORD_LAYOUT") {
+                    continue;
+                }
                 let mut elems: Vec<ESpec> = Vec::new();
                 if mode != "dangling" {
                     let mut t = e(tk, "X", "c1");
                     // the target itself must not be removable for another reason
-                    if tk == "GROUP" {
+                    if tk == "GROUP" && mode != "used-by-removable" {
                         t = t.kid(kl("REF_MEASUREMENT", &["M"])).kid(k("ROOT"));
                     }
-                    if tk == "FUNCTION" {
+                    if tk == "FUNCTION" && mode != "used-by-removable" {
                         t = t.kid(kl("IN_MEASUREMENT", &["M"]));
                     }
                     elems.push(t);
@@ -235,7 +239,7 @@ pub fn build(g: &Grammar, thorough: bool) -> Vec<Case10> {
                 if mode != "unused" {
                     let mut r = referrer.clone();
                     // keep the referrer itself alive
-                    match r.tag.as_str() {
+                    match if mode == "used-by-removable" { "" } else { r.tag.as_str() } {
                         "COMPU_METHOD" => elems.push(e("MEASUREMENT", "MM", "c1").set("conversion", "R")),
                         "UNIT" => {
                             elems.push(e("COMPU_METHOD", "CMU", "c1").kid(ks("REF_UNIT", &[("unit", "R")])));
@@ -299,7 +303,7 @@ pub fn run(tier: &str) -> Run {
     run.require("function-graph: ok", 1000);
     run.require("unit-chain: ok", 100);
     run.require("usage-position: ok", 50);
-    run.rule = "all 3-node GROUP graphs (every SUB_GROUP relation) x per-group content {empty, valid, dangling, AXIS_PTS} x ROOT x USER_RIGHTS subsets; all 3-node FUNCTION graphs x content x users through FUNCTION_LIST; all REF_UNIT functions on 3 UNITs x which units are used; every usage position of a helper kind as the only user x {used, unused, dangling} x target kind. Oracle: removed elements are helpers, objects/typedefs equal modulo previously dangling references, nothing that remains refers to a removed element, a check()-clean file stays clean, cleanup twice == once (text), cleaned file reloads equal.".into();
+    run.rule = "all 3-node GROUP graphs (every SUB_GROUP relation) x per-group content {empty, valid, dangling, AXIS_PTS} x ROOT x USER_RIGHTS subsets; all 3-node FUNCTION graphs x content x users through FUNCTION_LIST; all REF_UNIT functions on 3 UNITs x which units are used; every usage position of a helper kind as the only user x {used, unused, dangling, used only by a helper that is itself removable} x target kind. Oracle: removed elements are helpers, objects/typedefs equal modulo previously dangling references, nothing that remains refers to a removed element, a check()-clean file stays clean, cleanup twice == once (text), cleaned file reloads equal.".into();
     run
 }
 
